@@ -639,28 +639,25 @@ class Interp(object):
         return out
 
     def r_OffsetOfExpr(self, st, e):
-        """offsetof(type, member[.member...]) - clang's JSON dump carries neither the type nor the member designator, so they
-        are read from the source text at the expression's location and resolved against the record layout."""
+        """offsetof(type, member designator) - clang's JSON dump carries neither the type nor the designator; they come from
+        the preprocessed text (facts.offsetof_table) and are resolved against the record layout."""
         import re as _re
-        b = (e.get('range') or {}).get('begin') or {}
-        loc = b.get('expansionLoc') or b
-        path, line, col = e.get('_file'), loc.get('line') or e.get('_line'), loc.get('col')
-        if 'file' in loc:
-            path = loc['file']
-        if path and not os.path.isabs(path):
-            from .facts import REPO as _REPO
-            path = os.path.join(_REPO, path)
-        try:
-            src = open(path, errors='replace').read().split('\n')
-            text = ' '.join(src[line - 1:line + 3])[max(0, (col or 1) - 1):]
-        except Exception as ex:
-            raise Unsupported('offsetof: source text not available (%s)' % ex)
-        m = _re.match(r'\s*(?:offsetof|__builtin_offsetof)\s*\(\s*([^,]+?)\s*,\s*([A-Za-z_][\w.]*)\s*\)', text)
-        if not m:
-            raise Unsupported('offsetof: cannot read the designator at %s:%s' % (path, line))
-        t = self.ix.parse_type(m.group(1))
+        td = facts.offsetof_table(self.ix.unit).get(e.get('id'))
+        if td is None:
+            raise Unsupported('offsetof: cannot recover type and designator at %s' % where(e))
+        t = self.ix.parse_type(td[0])
         off = 0
-        for part in m.group(2).split('.'):
+        for part in _re.findall(r'[A-Za-z_]\w*|\[[^\]]*\]', td[1]):
+            if part.startswith('['):
+                if t.kind != 'arr':
+                    raise Unsupported('offsetof: subscript of non-array')
+                try:
+                    idx = int(part[1:-1].strip().rstrip('uUlL'), 0)
+                except ValueError:
+                    raise Unsupported('offsetof: non-literal subscript')
+                t = t.to
+                off += idx * self.sizeof(t)
+                continue
             if t.kind != 'rec':
                 raise Unsupported('offsetof into non-record type')
             f = t.rec.field(part)
